@@ -181,7 +181,7 @@ def msgsReply (bs : Bytes) (e : Option Bool) : String :=
 
 def strLe (a b : String) : Bool := !(b < a)
 
-def threadsOk (s : String) : Bool := ["all", "1", "2", "3", "4", "8", "16"].contains s
+def threadsOk (s : String) : Bool := ["all", "1", "2", "3", "4", "5", "7", "8", "12", "16"].contains s
 
 def repsOk (s : String) : Bool :=
   match s.toNat? with
